@@ -362,7 +362,7 @@ impl<E: Elem> Interp<E> {
     }
 
     fn unbag(&mut self, id: i64) -> Option<E> {
-        let id = if E::ETY == "zst" { 0 } else { id };
+        let id = if (E::ETY == "zst" || E::ETY == "plz") { 0 } else { id };
         let p = self.bag.iter().position(|x| x.0 == id)?;
         Some(self.bag.remove(p).1)
     }
@@ -433,7 +433,7 @@ impl<E: Elem> Interp<E> {
         }
         let byval: Vec<bool> = forms.iter().map(|f| f == "own").collect();
         let arg = ju(st, "arg").unwrap_or(-1);
-        let mut elem_ids: Vec<i64> = jarr(st, "elems").into_iter().map(|x| if E::ETY == "zst" { 0 } else { x }).collect();
+        let mut elem_ids: Vec<i64> = jarr(st, "elems").into_iter().map(|x| if (E::ETY == "zst" || E::ETY == "plz") { 0 } else { x }).collect();
         if let Some(p) = ju(st, "pick") {
             // the p-th smallest element the caller holds
             if p >= 0 {
@@ -469,7 +469,7 @@ impl<E: Elem> Interp<E> {
         let logged_op = match op {
             "builder_abandon" | "intrusive_abandon" => "generate",
             "builder_extend" | "intrusive_extend" => "builder_extend",
-            "consumer_abandon" => "fold",
+            "consumer_abandon" | "zipx_plain_out" => "fold",
             x => x,
         };
         ev!(
@@ -728,8 +728,9 @@ fn exec<E: Elem>(op: &str, vals: &mut Vec<Val<E>>, forms: &[String], arg: i64, m
             with_iter!(&vals[0], it => {
                 o.res = it.len() as i64;
                 let _b = crate::events::Bypass::new();
-                o.dbg = format!("{:?}", it);
-                o.dbgref = format!("GenericArrayIter({:?})", it.as_slice());
+                let r = DbgRef(it.as_slice());
+                o.dbg = format!("{:?}|{:#?}|{:x?}|{:10.3?}", it, it, it, it);
+                o.dbgref = format!("{:?}|{:#?}|{:x?}|{:10.3?}", r, r, r, r);
             }, bad());
             o
         }
@@ -921,6 +922,12 @@ fn exec<E: Elem>(op: &str, vals: &mut Vec<Val<E>>, forms: &[String], arg: i64, m
                 _ => with_arr!(&vals[0], a => zipx_ref(a, left, pref, ctx).wrap(), bad()),
             }])
         }
+        "zipx_plain_out" => {
+            let left = js(st, "side") != "r";
+            let mut o = Outcome::new();
+            o.res = with_arr!(take(vals, 0), a => zipx_plain_out(a, left, ctx), bad());
+            o
+        }
         "zip" => {
             let is_box = with_box!(&vals[0], _a => true, false);
             Outcome::outs([if is_box {
@@ -956,7 +963,8 @@ fn exec<E: Elem>(op: &str, vals: &mut Vec<Val<E>>, forms: &[String], arg: i64, m
                         Some(J::Array(a)) => crate::serde_drv::HintMode::Fixed(a.iter().map(|x| x.as_i64().unwrap()).collect()),
                         _ => crate::serde_drv::HintMode::Absent,
                     };
-                    let de = crate::serde_drv::ScriptDe { script, hints };
+                    let human_readable = st.get("hr").and_then(|x| x.as_bool()).unwrap_or(true);
+                    let de = crate::serde_drv::ScriptDe { script, hints, human_readable };
                     with_len!(n, N => <GenericArray<E, N> as serde::Deserialize>::deserialize(de).map(|a| a.wrap()).map_err(|_| ()), bad())
                 }
                 _ => {
@@ -1053,6 +1061,29 @@ fn zipx_ref<E: Elem, N: generic_array::ArrayLength>(a: &GenericArray<E, N>, left
         (false, true) => (&p).zip(a, |v, x| ctx.cbx::<E, &E>(x, *v)),
     }
 }
+/// what Debug of the iterator must look like under any flags: a tuple struct named GenericArrayIter whose
+/// single field is the slice of the remaining elements (formatted by std, with the caller's flags)
+struct DbgRef<'a, E: Elem>(&'a [E]);
+impl<'a, E: Elem> std::fmt::Debug for DbgRef<'a, E> {
+    fn fmt(&self, f: &mut std::fmt::Formatter) -> std::fmt::Result {
+        f.debug_tuple("GenericArrayIter").field(&self.0).finish()
+    }
+}
+
+fn zipx_plain_out<E: Elem, N: generic_array::ArrayLength>(a: GenericArray<E, N>, left: bool, ctx: &CbCtx) -> i64 {
+    // tracked x plain -> plain: neither the other operand nor the OUTPUT has drop glue
+    let p: GenericArray<u64, N> = GenericArray::generate(|i| i as u64);
+    let acc = Cell::new(0i64);
+    let f = |x: E, _v: u64| -> u64 {
+        let r = ctx.fold::<E, E>(acc.get(), x);
+        acc.set(r);
+        r as u64
+    };
+    let out: GenericArray<u64, N> = if left { a.zip(p, |x, v| f(x, v)) } else { p.zip(a, |v, x| f(x, v)) };
+    drop(out);
+    acc.get()
+}
+
 fn dflt_arr<E: Elem, N: generic_array::ArrayLength>() -> GenericArray<E, N> {
     GenericArray::<E, N>::default()
 }
